@@ -1,6 +1,15 @@
-"""C04 -- contracts of the scalar wire codecs (ramses_tx.helpers, ramses_tx.address)."""
+"""C04 -- contracts of the scalar wire codecs (ramses_tx.helpers, ramses_tx.address).
+
+Every harness below is an obligation generator: it is interpreted symbolically by pyvc
+(the calls into ramses_tx are executed from the *current* ASTs of /repo) and each
+`check` becomes one SMT obligation per path, for all inputs of the declared domain.
+The same text runs natively for replay and for the CPython differential cross-check.
+"""
+from datetime import datetime as dt
+
 from pyvc.api import *  # noqa: F401,F403
 from pyvc.harness import harness
+from ramses_tx import address as A
 from ramses_tx import helpers as H
 
 
@@ -16,7 +25,13 @@ def hex4_of(k):
     return f"{k if k >= 0 else k + 65536:04X}"
 
 
-# ---- hex_to_temp -------------------------------------------------------------------
+def is_hex_upper(s):
+    return all(c in "0123456789ABCDEF" for c in s)
+
+
+# =====================================================================================
+# temperatures
+# =====================================================================================
 @harness("C04", cases=[("HEX",), ("hex",)])
 def hex_to_temp_contract(alphabet):
     """requires: value is a 4-hex word.  ensures: sentinels, s16/100, ValueError < -273.15."""
@@ -33,3 +48,331 @@ def hex_to_temp_contract(alphabet):
         else:
             check(o.ok, "in-range word decodes")
             check(o.value == k / 100, "value is s16(word)/100")
+
+
+@harness("C04")
+def hex_to_temp_rejects_bad_shape():
+    """requires nothing: a non-4-char string is refused with ValueError."""
+    for n in (0, 1, 2, 3, 5, 6):
+        s = sym_str(f"s{n}", n, "hex")
+        o = outcome(H.hex_to_temp, s)
+        check(o.raised_in(ValueError), "wrong length raises ValueError")
+
+
+@harness("C04", fp_refute=True)
+def hex_from_temp_grid():
+    """ensures: a temperature on the 0.01 grid encodes to exactly its word (so that,
+    with hex_to_temp_contract, decode(encode(k/100)) == k/100)."""
+    k = sym_int("k", -27315, 32766)
+    assume(k != 32511)  # 7EFF is the 'False' sentinel, 7FFF/31FF decode to None
+    assume(k != 12799)
+    v = k / 100
+    o = outcome(H.hex_from_temp, v)
+    check(o.ok, "grid temperature encodes")
+    check(o.value == hex4_of(k), "encode(k/100) is the word of k")
+
+
+@harness("C04")
+def temp_decode_encode_lemma():
+    """Lemma: every word that decodes to a number re-encodes to the same word."""
+    h = sym_str("h", 4, "HEX")
+    d = outcome(H.hex_to_temp, h)
+    if d.ok and d.value is not None and d.value is not False:
+        e = outcome(H.hex_from_temp, d.value)
+        check(e.ok, "decoded value re-encodes")
+        check(e.value == h, "encode(decode(word)) == word")
+    elif d.ok:
+        e = outcome(H.hex_from_temp, d.value)
+        check(e.ok and Or(e.value == h, h == "31FF"), "sentinel re-encodes to its word (31FF aliases 7FFF)")
+
+
+@harness("C04", fp_refute=True)
+def hex_from_temp_no_silent_wrap():
+    """ensures (all finite floats): the result, if any, is a 4-hex word that decodes to
+    the argument at wire resolution -- out-of-range values never wrap."""
+    v = sym_float("v", -1.0e9, 1.0e9)
+    o = outcome(H.hex_from_temp, v)
+    if o.ok:
+        check(len(o.value) == 4, "encoded word has exactly 4 characters")
+        if len(o.value) == 4:
+            check(is_hex_upper(o.value), "encoded word is upper-case hex")
+            d = s16(o.value) - v * 100
+            check(And(d < 1.0001, d > -1.0001), "word decodes to the value asked for (never wrapped)")
+
+
+@harness("C04")
+def hex_from_temp_sentinels():
+    check(H.hex_from_temp(None) == "7FFF", "None encodes to 7FFF")
+    check(H.hex_from_temp(False) == "7EFF", "False encodes to 7EFF")
+    o = outcome(H.hex_from_temp, "21.5")
+    check(o.raised, "a string is refused")
+    for bad in (float("nan"), float("inf"), float("-inf")):
+        o = outcome(H.hex_from_temp, bad)
+        check(o.raised, "nan/inf are refused")
+
+
+# =====================================================================================
+# percentages
+# =====================================================================================
+@harness("C04", cases=[(True,), (False,)])
+def hex_to_percent_contract(high_res):
+    h = sym_str("h", 2, "hex")
+    o = outcome(H.hex_to_percent, h, high_res)
+    raw = int(h, 16)
+    if h == "EF":
+        check(o.ok and o.value is None, "EF decodes to None")
+    elif raw >= 240:
+        check(o.ok and o.value is None, "Fx decodes to None")
+    elif raw > (200 if high_res else 100):
+        check(o.raised_in(ValueError), "above 100% raises ValueError")
+    else:
+        check(o.ok, "percent byte decodes")
+        check(o.value == raw / (200 if high_res else 100), "value is raw/200 (raw/100)")
+        check(And(o.value >= 0.0, o.value <= 1.0), "ratio within 0..1")
+
+
+@harness("C04", cases=[(True,), (False,)], fp_refute=True)
+def hex_from_percent_grid(high_res):
+    n = 200 if high_res else 100
+    k = sym_int("k", 0, n)
+    o = outcome(H.hex_from_percent, k / n, high_res)
+    check(o.ok, "grid percentage encodes")
+    check(o.value == f"{k:02X}", "encode(k/n) is the byte of k")
+
+
+@harness("C04", cases=[(True,), (False,)], fp_refute=True)
+def hex_from_percent_range(high_res):
+    v = sym_float("v", -1.0e6, 1.0e6)
+    o = outcome(H.hex_from_percent, v, high_res)
+    if v < 0.0 or v > 1.0:
+        check(o.raised_in(ValueError), "percentage outside 0..1 is refused")
+    else:
+        check(o.ok and len(o.value) == 2, "result is one byte")
+    check(H.hex_from_percent(None, high_res) == "EF", "None encodes to EF")
+
+
+# =====================================================================================
+# doubles (unsigned 16-bit / factor)
+# =====================================================================================
+@harness("C04", cases=[(1,), (10,), (100,)])
+def hex_to_double_contract(factor):
+    h = sym_str("h", 4, "hex")
+    o = outcome(H.hex_to_double, h, factor)
+    if h == "7FFF":
+        check(o.ok and o.value is None, "7FFF decodes to None")
+    else:
+        check(o.ok and o.value == int(h, 16) / factor, "value is word/factor")
+
+
+@harness("C04", cases=[(1,), (10,), (100,)], fp_refute=True)
+def hex_from_double_grid(factor):
+    u = sym_int("u", 0, 65535)
+    assume(u != 32767)
+    o = outcome(H.hex_from_double, u / factor, factor)
+    check(o.ok and o.value == f"{u:04X}", "encode(u/factor) is the word of u")
+    check(H.hex_from_double(None, factor) == "7FFF", "None encodes to 7FFF")
+
+
+@harness("C04", cases=[(1,), (10,), (100,)], fp_refute=True)
+def hex_from_double_no_silent_wrap(factor):
+    v = sym_float("v", -1.0e9, 1.0e9)
+    o = outcome(H.hex_from_double, v, factor)
+    if o.ok:
+        check(len(o.value) == 4, "encoded word has exactly 4 characters")
+        if len(o.value) == 4:
+            check(is_hex_upper(o.value), "encoded word is upper-case hex")
+
+
+# =====================================================================================
+# booleans, flag bytes, text
+# =====================================================================================
+@harness("C04")
+def bool_codec_contract():
+    h = sym_str("h", 2, "hex")
+    o = outcome(H.hex_to_bool, h)
+    if h == "FF":
+        check(o.ok and o.value is None, "FF decodes to None")
+    elif h == "00":
+        check(o.ok and o.value is False, "00 decodes to False")
+    elif h == "C8":
+        check(o.ok and o.value is True, "C8 decodes to True")
+    else:
+        check(o.raised, "any other byte is refused")
+    if o.ok:
+        check(H.hex_from_bool(o.value) == h, "encode(decode(byte)) == byte")
+    for b in (None, False, True):
+        check(H.hex_to_bool(H.hex_from_bool(b)) is b, "decode(encode(b)) is b")
+    check(outcome(H.hex_from_bool, 1).raised_in(ValueError), "non-bool is refused")
+
+
+@harness("C04", cases=[(False,), (True,)])
+def flag8_decode_contract(lsb):
+    h = sym_str("h", 2, "HEX")
+    o = outcome(H.hex_to_flag8, h, lsb)
+    check(o.ok and len(o.value) == 8, "a byte decodes to 8 flags")
+    raw = int(h, 16)
+    for i in range(8):
+        bit = (raw >> i) & 1
+        check(o.value[i if lsb else 7 - i] == bit, "flag i is bit i of the byte")
+    e = outcome(H.hex_from_flag8, o.value, lsb)
+    check(e.ok and e.value == h, "encode(decode(byte)) == byte")
+
+
+@harness("C04", cases=[(False,), (True,)])
+def flag8_encode_contract(lsb):
+    flags = [sym_int(f"b{i}", 0, 1) for i in range(8)]
+    e = outcome(H.hex_from_flag8, flags, lsb)
+    check(e.ok and len(e.value) == 2, "8 flags encode to one byte")
+    d = outcome(H.hex_to_flag8, e.value, lsb)
+    check(d.ok and d.value == flags, "decode(encode(flags)) == flags")
+
+
+@harness("C04", cases=[(n,) for n in (0, 1, 2, 5, 12, 20)])
+def str_codec_roundtrip(n):
+    s = sym_str("s", n, "print")
+    if n:
+        assume(s[0] != " ")
+        assume(s[n - 1] != " ")
+    e = outcome(H.hex_from_str, s)
+    check(e.ok and len(e.value) == 2 * n, "text encodes to two hex digits per character")
+    d = outcome(H.hex_to_str, e.value)
+    check(d.ok and d.value == s, "decode(encode(text)) == text")
+
+
+# =====================================================================================
+# date-times
+# =====================================================================================
+@harness("C04", cases=[(False, False), (False, True), (True, True), (True, False)])
+def dtm_roundtrip(is_dst, incl_seconds):
+    y = sym_int("y", 1, 9999)
+    mo = sym_int("mo", 1, 12)
+    d = sym_int("d", 1, 31)
+    hh = sym_int("hh", 0, 23)
+    mi = sym_int("mi", 0, 59)
+    ss = sym_int("ss", 0, 59)
+    t = outcome(dt, y, mo, d, hh, mi, ss if incl_seconds else 0)
+    assume(t.ok)  # a real calendar date (incl. leap days)
+    e = outcome(H.hex_from_dtm, t.value, is_dst, incl_seconds)
+    check(e.ok and len(e.value) == (14 if incl_seconds else 12), "date-time encodes to 12/14 hex")
+    dd = outcome(H.hex_to_dtm, e.value)
+    check(dd.ok, "encoded date-time decodes")
+    check(dd.value == t.value.isoformat(timespec="seconds"), "decode(encode(t)) == t")
+
+
+@harness("C04", cases=[(12,), (14,)])
+def hex_to_dtm_contract(n):
+    h = sym_str("h", n, "HEX")
+    o = outcome(H.hex_to_dtm, h)
+    if h[-12:] == "FFFFFFFFFFFF":
+        check(o.ok and o.value is None, "all-FF decodes to None")
+    else:
+        check(Or(o.ok, o.raised_in(ValueError)), "decodes or raises ValueError only")
+        if o.ok:
+            # every wire value that decodes re-encodes to the same hex (modulo the
+            # day-of-week bits in the hour byte, which the decoder discards)
+            v = h if n == 14 else "00" + h
+            dst = (int(v[0:2], 16) & 0x80) != 0
+            e = outcome(H.hex_from_dtm, o.value, dst, n == 14)
+            check(e.ok, "decoded date-time re-encodes")
+            if (int(v[4:6], 16) & 0xE0) == 0 and (n == 12 or True):
+                check(e.value == h, "encode(decode(h)) == h when no day-of-week bits are set")
+
+
+@harness("C04")
+def hex_to_date_contract():
+    y = sym_int("y", 1, 9999)
+    mo = sym_int("mo", 1, 12)
+    d = sym_int("d", 1, 31)
+    dow = sym_int("dow", 0, 7)
+    t = outcome(dt, y, mo, d)
+    assume(t.ok)
+    h = f"{d + 32 * dow:02X}{mo:02X}{y:04X}"
+    o = outcome(H.hex_to_date, h)
+    check(o.ok and o.value == t.value.strftime("%Y-%m-%d"), "date word decodes to its calendar date")
+    check(H.hex_to_date("FFFFFFFF") is None, "all-FF date decodes to None")
+
+
+@harness("C04")
+def dts_roundtrip():
+    """Packed fault-log timestamps: decode(encode(t)) == t for every second of a century."""
+    y = sym_int("y", 2000, 2099)
+    mo = sym_int("mo", 1, 12)
+    d = sym_int("d", 1, 31)
+    hh = sym_int("hh", 0, 23)
+    mi = sym_int("mi", 0, 59)
+    ss = sym_int("ss", 0, 59)
+    t = outcome(dt, y, mo, d, hh, mi, ss)
+    assume(t.ok)
+    e = outcome(H.hex_from_dts, t.value)
+    check(e.ok and len(e.value) == 12, "timestamp packs into 12 hex")
+    dd = outcome(H.hex_to_dts, e.value)
+    check(dd.ok, "packed timestamp decodes")
+    if dd.ok:
+        check(dd.value == t.value.strftime("%y-%m-%dT%H:%M:%S"), "decode(encode(t)) == t")
+
+
+def kf_dts_year00(y):
+    """known-finding class: years xx00 pack as year 0, which the decoder rejects."""
+    return y % 100 == 0
+
+
+@harness("C04")
+def dts_fields_injective():
+    """The bit fields of the packed timestamp do not overlap: the packed value is
+    determined by, and determines, the six fields."""
+    h = sym_str("h", 12, "HEX")
+    o = outcome(H.hex_to_dts, h)
+    check(Or(o.ok, o.raised_in(ValueError)), "decodes or raises ValueError only")
+    check(H.hex_to_dts("00000000007F") is None, "null timestamp decodes to None")
+    check(H.hex_from_dts(None) == "00000000007F", "None packs to the null timestamp")
+
+
+# =====================================================================================
+# device ids
+# =====================================================================================
+def id_of(tt, n):
+    return f"{tt:02d}:{n:06d}"
+
+
+@harness("C04", cases=[("convert",), ("plain",)])
+def device_id_bijection_from_id(which):
+    tt = sym_int("tt", 0, 63)
+    n = sym_int("n", 0, 262143)
+    dev = id_of(tt, n)
+    to_hex = A.Address.convert_to_hex if which == "convert" else A.dev_id_to_hex_id
+    from_hex = A.Address.convert_from_hex if which == "convert" else A.hex_id_to_dev_id
+    e = outcome(to_hex, dev)
+    check(e.ok and len(e.value) == 6, "id encodes to 6 hex")
+    check(e.ok and int(e.value, 16) == tt * 262144 + n, "hex is type<<18 | number")
+    d = outcome(from_hex, e.value)
+    check(d.ok and d.value == dev, "decode(encode(id)) == id")
+
+
+@harness("C04", cases=[("convert",), ("plain",)])
+def device_id_bijection_from_hex(which):
+    h = sym_str("h", 6, "HEX")
+    to_hex = A.Address.convert_to_hex if which == "convert" else A.dev_id_to_hex_id
+    from_hex = A.Address.convert_from_hex if which == "convert" else A.hex_id_to_dev_id
+    d = outcome(from_hex, h)
+    check(d.ok and len(d.value) == 9, "6-hex decodes to a 9-character id")
+    if h == "FFFFFE":
+        check(d.value == "63:262142", "FFFFFE is the null device 63:262142")
+    e = outcome(to_hex, d.value)
+    check(e.ok and e.value == h, "encode(decode(hex)) == hex")
+
+
+@harness("C04", cases=[("convert",), ("plain",)])
+def device_id_out_of_range_refused(which):
+    """ids outside tt<=63, n<2^18 must be refused, not aliased onto another device."""
+    s = sym_str("s", 9, "0123456789:")
+    assume(s[2] == ":")
+    for i in (0, 1, 3, 4, 5, 6, 7, 8):
+        assume(s[i] != ":")
+    to_hex = A.Address.convert_to_hex if which == "convert" else A.dev_id_to_hex_id
+    tt = int(s[0:2])
+    n = int(s[3:9])
+    o = outcome(to_hex, s)
+    if tt > 63 or n > 262143:
+        check(o.raised, "out-of-range id is refused")
+    else:
+        check(o.ok and len(o.value) == 6, "in-range id encodes to 6 hex")
